@@ -9,8 +9,10 @@
 (*  CalcTrimOp   every (size 1..MaxSize, image 1..size, pad1 0..size-image,  *)
 (*               trim1 + trim2 < size).  Dumped as TRIM lines and replayed *)
 (*               into the real UrwidImageCanvas._ti_calc_trim.             *)
-(*  ContentTextOp every abstract text canvas up to MaxW x MaxH (3x3          *)
-(*               alignments, every image size, every colour-run pattern)   *)
+(*  ContentTextOp every abstract text canvas up to MaxW x MaxH (4x4          *)
+(*               alignments as given in the format spec: near / mid / far  *)
+(*               / absent per axis, every image size, every colour-run     *)
+(*               pattern)                                                  *)
 (*               and every sub-rectangle.                                  *)
 (*  ContentGfxOp  the same for the graphics branch.                         *)
 (***************************************************************************)
@@ -25,7 +27,8 @@ NoAxis == [size |-> 0, image |-> 0, pad1 |-> 0, pad2 |-> 0]
 NoCanvas == [W |-> 0, H |-> 0, iw |-> 0, ih |-> 0, ha |-> "", va |-> "", pat |-> <<>>]
 NoOp == [op |-> "render"]
 
-Aligns == {"near", "mid", "far"}
+\* every alignment a format spec can give for one axis, INCLUDING none at all ("absent")
+Aligns == AlignValues
 
 \* alignments only differ when there is padding to distribute
 AlignsFor(size, image) == IF image = size THEN {"near"} ELSE Aligns
@@ -100,4 +103,8 @@ GfxVerticalSelectsHorizontalBlanks ==
 
 (* ---- dump for the spec -> code replay (run with -workers 1) ---- *)
 Dump == out'.op = "calc_trim" => PrintT(<<"TRIM", ToJson(out')>>)
+
+\* the alignment universe of the model: the driver must exercise every pair of it on real
+\* canvases (accepted, horizontally trimmed, coloured traces), else the run is vacuous
+ASSUME PrintT(<<"ALIGNS", ToJson([h |-> Aligns, v |-> Aligns])>>)
 =============================================================================
